@@ -3,7 +3,7 @@ import json
 import os
 
 from harness import interp_common as ic
-from harness.interp_gen import Gen
+from harness.interp_gen import Gen, gate_inspect
 
 PROP = 'C03'
 LEAN_MODULES = ['Glom.Props.C03']
@@ -17,14 +17,23 @@ MANIFEST = dict(
           "(glom(t,(a,b)) = glom(glom(t,a),b) for non-sentinel results; a chain of pure steps is the reference fold chainRef, whose "
           "result is never a sentinel, so a chain nested in a chain hands its value on to the outer steps also when one of its "
           "steps returned STOP: c03_chain_ref, c03_nested_chain), Pipe = tuple, Coalesce first non-skipped success wins "
-          "and later alternatives never run, containers are determined by the evaluator at their own scope only. The model is "
+          "and later alternatives never run (skip_exc=() passes over no exception, skip=() skips no value: "
+          "c03_coalesce_no_skip_exc, c03_coalesce_skip_nothing), containers are determined by the evaluator at their own scope "
+          "only. The loop laws also hold for evaluators WITH EFFECTS (call log, ScopeVars writes, exceptions): "
+          "c03_list_stateful / c03_dict_stateful / c03_chain_stateful equate the accumulator loops with the accumulator-free "
+          "state-threading references listRefM / dictRefM / chainRefM (each sub-spec evaluated once, left to right, the state "
+          "threaded, an exception ends the evaluation with the state reached), c03_list_call_log gives the call log of a list "
+          "spec explicitly (the sub-spec's entries per item, in order, up to and including the first STOP), and the interpreter "
+          "itself satisfies the hypotheses for instrumented callables (c03_callable_evalOn, c03_callable_loggedOn). Inspect is "
+          "modelled: transparent without callbacks (c03_inspect_transparent: Inspect(s) = Spec(s)), breakpoint once before, "
+          "post_mortem once after an exception which is re-raised (c03_inspect_callbacks). The model is "
           "tied to /repo by differential execution (result + ordered call log) through the compiled Lean driver, and the "
           "composition law itself is re-evaluated on the real glom (top-level tuple/dict/list specs recomputed from separate "
           "glom calls on their sub-specs)."),
     note=("trusted: Lean kernel + {propext, Classical.choice, Quot.sound}; harness/driver; Python primitives as Prims parameters; "
-          "hand-written interpreter model validated by the correspondence on every run. The loop laws are stated relative to a "
-          "pure evaluator of the sub-specs (hypothesis PureOn), which catalogue callables and paths satisfy."),
-    technique='Lean 4 loop-refinement lemmas (accumulator loops = map/filter/fold reference) + differential correspondence + metamorphic composition check',
+          "hand-written interpreter model validated by the correspondence on every run. Inspect(recursive=True) with callbacks "
+          "is not modelled (the tracer it installs is called for every nested evaluation); what Inspect echoes is not observed."),
+    technique='Lean 4 loop-refinement lemmas (accumulator loops = map/filter/fold reference, pure and state-threading) + differential correspondence + metamorphic composition check',
     ref='DESIGN.md §3 C03')
 RULE = ('type-directed: a random JSON-like target; a spec tree of depth <= 3 (quick) / 4 (thorough), width <= 4, over '
         '{str path, T, dict (literal and computed keys, dict/OrderedDict), list, tuple, Pipe, callable, type, Val, Spec, '
@@ -34,13 +43,24 @@ RULE = ('type-directed: a random JSON-like target; a spec tree of depth <= 3 (qu
         'cases are nested chains: a tuple / Pipe of str paths and plain callables placed directly as a step of a '
         'tuple / Pipe (0-2 steps before it, 1-3 after it) with a callable that returns SKIP / STOP for the value it '
         'receives at a random position of the inner chain; 7% are containers with T leaves in argument position (Call '
-        'args / kwargs, Coalesce default, ...) evaluated per record of a list of distinct records; ~12% of accesses are invalid. Every '
+        'args / kwargs, Coalesce default, ...) evaluated per record of a list of distinct records; ~12% of accesses are invalid. '
+        'Enumerated on every run (1408 cases): every boundary value of one Coalesce keyword -- skip_exc in {(), GlomError as class / '
+        '1-tuple, PathAccessError as class / 1-tuple, (ValueError,), (ValueError, KeyError), Exception}, skip in {(), (None,), (0,), '
+        'None, 0, False, "", [], SKIP}, default in {None, 0, False, "", [], {}, (), SKIP, STOP, Val(None)}, default_factory -- and '
+        'the pairs skip_exc boundary x falsy default, x what the first alternative does (PathAccessError from a path / from T, '
+        'GlomError, ValueError, CoalesceError, yields None / 0 / a value) followed by a logged later alternative, x where the '
+        'Coalesce stands (whole spec, dict value, tuple step, list element); 25% of the random Coalesces draw such a boundary. '
+        'Inspect(spec, echo, recursive, breakpoint=f, post_mortem=g) wraps random sub-specs (callbacks are instrumented callables; '
+        'recursive=True without callbacks only). Every '
         'callable is an instrumented catalogue function with a unique name, so the ordered call log is observed. '
         'non-trivial = spec has >= 3 nodes; distinct = distinct (target, spec)')
 TRUSTED = ['Python primitives (==, truthiness, hashing, iteration, int(), the catalogue callables) are parameters of the '
            'theorems (`Prims`); their executable instantiation in Glom/Driver/InterpCodec.lean is validated by the '
            'correspondence only']
-ASSUMPTIONS = ['Inspect is not modelled (I/O)', 'T-expressions inside specs carry literal arguments only (C02 covers T)']
+ASSUMPTIONS = ['what Inspect echoes to stdout is not observed; Inspect(recursive=True) with callbacks is not modelled',
+               'T-expressions inside specs carry literal arguments only (C02 covers T)',
+               'the iteration of a target is a parameter of the theorems (Prims.iterate): which handler the registry resolves, also '
+               'after a registration between two evaluations, is C13 / C06']
 
 
 def generate(rng, tier, scale, **focus):
@@ -49,7 +69,7 @@ def generate(rng, tier, scale, **focus):
         yield from Gen.coalesce_boundaries()
     n = (1200 if tier == 'quick' else 30000) * scale
     for i in range(n):
-        g = Gen(rng, {'extra': ['ref', 'nestchain']})
+        g = Gen(rng, {'extra': ['ref', 'nestchain', 'inspect']})
         t = g.target()
         depth = rng.choice([1, 2, 2, 3]) if tier == 'quick' else rng.choice([2, 3, 3, 4])
         q = rng.random()
@@ -64,7 +84,7 @@ def generate(rng, tier, scale, **focus):
             spec = g.s_nestchain(t, rng.choice([0, 1]))
         else:
             spec = g.spec(t, depth)
-        yield {'spec': spec, 'target': ic.enc(t), 'scope': []}
+        yield {'spec': gate_inspect(spec), 'target': ic.enc(t), 'scope': []}
 
 
 def corpus():
@@ -140,11 +160,14 @@ def compose(case):
 
 
 def run_impl(case):
+    import contextlib
+    import io
     base = {k: v for k, v in case.items() if not k.startswith('impl')}
     out = ic.run_glom(base)
     out.pop('_built', None)
     try:
-        comp = compose(base)
+        with contextlib.redirect_stdout(io.StringIO()):
+            comp = compose(base)
     except Exception:
         comp = None
     if comp is None:
